@@ -237,8 +237,8 @@ def rule_r3(chk, F):
             r.floor("boots atomic instruction sites", nsite, 6)
 
 
-def rule_r4(chk, c, cg):
-    r = chk.rule("C09.R4", "ObjectHashMap (keyed by object address) re-hashes after a collection before every probe; "
+def rule_r4(chk, c, cg, rid="C09.R4"):
+    r = chk.rule(rid, "ObjectHashMap (keyed by object address) re-hashes after a collection before every probe; "
                            "its keys are visited as roots")
     OH = WL + "ObjectHashMap::<T>::"
     rehashers = []
